@@ -242,14 +242,14 @@ pub fn explicit_to_set(sys: &Sys, cs: &ColourSpace, set: &ExplicitSet) -> GraphC
 // panic capture
 
 thread_local! {
-    static CAPTURE: RefCell<bool> = const { RefCell::new(false) };
+    static CAPTURE: RefCell<u32> = const { RefCell::new(0) };
     static LAST_PANIC: RefCell<Option<String>> = const { RefCell::new(None) };
 }
 
 pub fn install_panic_hook() {
     let default = std::panic::take_hook();
     std::panic::set_hook(Box::new(move |info| {
-        let capturing = CAPTURE.with(|c| *c.borrow());
+        let capturing = CAPTURE.with(|c| *c.borrow()) > 0;
         if capturing {
             let loc = info.location().map(|l| format!("{}:{}", l.file(), l.line())).unwrap_or_default();
             let msg = if let Some(s) = info.payload().downcast_ref::<&str>() {
@@ -268,9 +268,9 @@ pub fn install_panic_hook() {
 
 /// Run a library call; a panic is returned as `Err(description with source location)`.
 pub fn guarded<T>(f: impl FnOnce() -> T) -> Result<T, String> {
-    CAPTURE.with(|c| *c.borrow_mut() = true);
+    CAPTURE.with(|c| *c.borrow_mut() += 1);
     let r = catch_unwind(AssertUnwindSafe(f));
-    CAPTURE.with(|c| *c.borrow_mut() = false);
+    CAPTURE.with(|c| *c.borrow_mut() -= 1);
     match r {
         Ok(v) => Ok(v),
         Err(_) => Err(LAST_PANIC.with(|p| p.borrow_mut().take()).unwrap_or_else(|| "panic (no message)".to_string())),
